@@ -14,6 +14,7 @@ package main
 import (
 	"encoding/json"
 	"fmt"
+	"io"
 	"math"
 	"os"
 	"path/filepath"
@@ -40,6 +41,7 @@ type Rec struct {
 	Delta uint64   `json:"dl"`
 	Resid uint64   `json:"rs"`
 	Coefs []uint64 `json:"c"`
+	Odd   bool     `json:"odd,omitempty"` // bench: keep this record's own length (a record of the wrong length); otherwise it is cut to the length in force
 }
 
 type Op struct {
@@ -49,6 +51,8 @@ type Op struct {
 	T3   bool   `json:"t3,omitempty"`
 	TOFF bool   `json:"toff,omitempty"`
 	Recs []Rec  `json:"recs,omitempty"`
+	NS   int    `json:"ns,omitempty"` // pulse: SizeObject.Nsamp
+	NP   int    `json:"np,omitempty"` // pulse: SizeObject.Npre
 }
 
 type Chan struct {
@@ -773,6 +777,9 @@ func runBench(c Case) lib.Result {
 	}
 	defer b.Close()
 	ds := b.Source()
+	rpc := dastard.VerifNewRPC(b) // SourceControl stand-in: pulse-length requests go through the RPC entry point
+	defer rpc.Close()
+	rpc.VerifC05SetStatusLengths(c.NPre, c.NSamp)
 	ds.VerifSetWritingBasePath(dir)
 	ds.VerifC05SetSource(c.Source, c.SfDiv, rate)
 	var pixels []dastard.Pixel
@@ -930,6 +937,21 @@ func runBench(c Case) lib.Result {
 			vr := make([]dastard.VerifRecord, len(o.Recs))
 			var rts []string
 			for i, r := range o.Recs {
+				// the processors cut records with the lengths in force: pre-trigger length always, record length unless
+				// the case asks for a record of the wrong length
+				dsp := b.VerifDsp(o.Ch)
+				r.Pre = dsp.NPresamples
+				if !r.Odd && len(r.Data) != dsp.NSamples {
+					d := make([]uint16, dsp.NSamples)
+					for k := range d {
+						if len(r.Data) > 0 {
+							d[k] = r.Data[k%len(r.Data)] + uint16(k/len(r.Data))
+						} else {
+							d[k] = uint16(k)
+						}
+					}
+					r.Data = d
+				}
 				coefs := make([]float64, len(r.Coefs))
 				for k, v := range r.Coefs {
 					coefs[k] = math.Float64frombits(v)
@@ -939,10 +961,10 @@ func runBench(c Case) lib.Result {
 					ResidualStdDev: math.Float64frombits(r.Resid), ModelCoefs: coefs}
 				rts = append(rts, recTerm(r))
 				tagRec(tags, r)
-				if len(r.Data) != c.NSamp {
+				if len(r.Data) != dsp.NSamples {
 					tags["record-length-differs"] = true
 				}
-				if c.Chans[o.Ch].NBases > 0 && len(r.Coefs) != c.Chans[o.Ch].NBases {
+				if dsp.HasProjectors() && len(r.Coefs) != c.Chans[o.Ch].NBases {
 					tags["coefficient-count-differs"] = true
 				}
 			}
@@ -985,6 +1007,24 @@ func runBench(c Case) lib.Result {
 				tags["stop-while-not-writing"] = true
 			}
 			doStop()
+		case "pulse":
+			var reply bool
+			pre0, n0 := b.VerifDsp(0).NPresamples, b.VerifDsp(0).NSamples
+			err := rpc.SC.ConfigurePulseLengths(dastard.SizeObject{Nsamp: o.NS, Npre: o.NP}, &reply)
+			terms = append(terms, fmt.Sprintf("bo (BPulse %s %s) %s", zz(int64(o.NS)), zz(int64(o.NP)), bret(err)))
+			calls = append(calls, bcall{Op: fmt.Sprintf("pulse nsamp=%d npre=%d (in force afterwards: nsamp=%d npre=%d)", o.NS, o.NP, b.VerifDsp(0).NSamples, b.VerifDsp(0).NPresamples), Ret: bret(err)})
+			switch {
+			case err != nil && active && paused:
+				tags["pulse-lengths-refused-while-paused"] = true
+			case err != nil && active:
+				tags["pulse-lengths-refused-while-writing"] = true
+			case err != nil:
+				tags["pulse-lengths-invalid"] = true
+			case pre0 != b.VerifDsp(0).NPresamples || n0 != b.VerifDsp(0).NSamples:
+				tags["pulse-lengths-changed"] = true
+			default:
+				tags["pulse-lengths-unchanged"] = true
+			}
 		}
 	}
 	if active {
@@ -1006,6 +1046,7 @@ func runCase(c Case) lib.Result {
 
 func main() {
 	time.Local = time.UTC
+	dastard.UpdateLogger.SetOutput(io.Discard) // "ConfigurePulseLengths: ..." lines of the RPC layer
 	h := lib.Harness{
 		Gen: gen,
 		RunCase: func(raw json.RawMessage) (lib.Result, error) {
